@@ -428,6 +428,12 @@ func worker(o *common.Opts) {
 	for round := 0; round < *fRounds; round++ {
 		r := rand.New(rand.NewSource(o.Seed*7919 + int64(*fBatch)*104729 + int64(round)))
 		db := model.NewDB()
+		if ie, ok := ex.(*inprocExec); ok && round > 0 {
+			// the model starts every round empty, so does the database (the keys that outlived the last round are
+			// not this round's business)
+			ie.in.Stop()
+			ex = &inprocExec{in: inproc.New()}
+		}
 		var plans []*keyPlan
 		for i := 0; i < *fKeys; i++ {
 			plans = append(plans, planKey(r, round*1000000+*fBatch*10000+i, *fMaxTTL))
